@@ -79,6 +79,27 @@ JSONSerializableTypeRegistry().register(
 )
 
 
+class ForeignSub(Foreign):
+    """a subclass of a registered third-party type, registered on its own AFTER its base, with one more field"""
+
+    def __init__(self, v, w=7):
+        super().__init__(v)
+        self.w = w
+
+    def __eq__(self, other):
+        return type(other) is ForeignSub and self.v == other.v and self.w == other.w
+
+    def __repr__(self):
+        return f"ForeignSub({self.v!r}, {self.w!r})"
+
+
+JSONSerializableTypeRegistry().register(
+    ForeignSub,
+    lambda o: {JSON_TYPE_NAME: get_full_class_name(ForeignSub), "v": to_json(o.v), "w": o.w},
+    lambda d, **kw: ForeignSub(from_json(d["v"]), d["w"]),
+)
+
+
 class PlainClass:
     """not serialisable, not registered"""
 
@@ -96,3 +117,8 @@ def a_function():
 
 
 an_instance = PlainClass()
+# module attributes that are not classes AND not hashable
+a_list = [Box]
+a_dict = {"Box": Box}
+a_set = {1, 2}
+a_value_instance = Box(1)  # a dataclass with value equality: instances are unhashable
